@@ -106,7 +106,9 @@ def step (E : Engine) (st : St) (l : List String) : St × String :=
     | none => (st, "err")
     | some r =>
       let methods := methodsOf ms
-      if methods.any (fun m => !(Gen.httpMethods.contains m)) then (st, "err")
+      -- one method after the other, as `Routes` / `Any` do: an unknown method (no tree of that name) stops the
+      -- registration with a panic, the methods before it stay registered (`Router.addMethods`)
+      if methods.isEmpty then (st, "err")
       else
         let (R', ok) := st.R.addMethods E (natOf hid) r methods []
         -- the harness names every route it managed to add `r<hid>` (for the round trip)
